@@ -30,8 +30,8 @@
 use std::{
     collections::HashSet,
     sync::{
-        Arc, Condvar, Mutex,
-        atomic::{AtomicU8, AtomicUsize, Ordering},
+        Arc, Condvar, Mutex, OnceLock,
+        atomic::{AtomicBool, AtomicI64, AtomicU8, AtomicU64, AtomicUsize, Ordering},
     },
     thread::{self, ThreadId},
     time::{Duration, Instant},
@@ -222,7 +222,7 @@ impl Scenario {
         let timeout_us = if rng.chance(1, 2) {
             None
         } else if small {
-            Some(*rng.pick(&[200u64, 1000, 5000]))
+            Some(*rng.pick(&[20_000u64, 50_000]))
         } else {
             Some(*rng.pick(&[5_000u64, 10_000, 20_000]))
         };
@@ -234,7 +234,11 @@ impl Scenario {
                 } else {
                     *rng.pick(&[0u8, 0, 3, 4, 5, 12])
                 };
-                let phase = if rng.chance(1, 3) {
+                // Under Miri a hand-off stranded behind gated jobs would end the
+                // whole process as a deadlock that is the harness' own making
+                // (natively the monitor opens the gate): gate only when workers
+                // cannot time out.
+                let phase = if rng.chance(1, 3) && !(cfg!(miri) && timeout_us.is_some()) {
                     Phase::Gated
                 } else {
                     Phase::Churn {
@@ -297,6 +301,167 @@ impl Scenario {
     }
 }
 
+// ---------------------------------------------------------------------------
+// deadlock monitor (native): "a caller is parked inside `dispatch` and no
+// worker exists" is decided from the process' thread list, not from a clock
+// ---------------------------------------------------------------------------
+
+#[derive(Default)]
+struct CallerState {
+    tid: AtomicI64,
+    /// odd while the caller is inside `AsyncifyPool::dispatch`
+    seq: AtomicU64,
+    alive: AtomicBool,
+}
+
+impl CallerState {
+    fn enter(&self) {
+        self.seq.fetch_add(1, Ordering::SeqCst);
+    }
+
+    fn leave(&self) {
+        self.seq.fetch_add(1, Ordering::SeqCst);
+    }
+}
+
+#[derive(Default)]
+struct Mon {
+    callers: Vec<Arc<CallerState>>,
+    stop: Mutex<bool>,
+    cv: Condvar,
+    rescued: AtomicUsize,
+    forced_gate: AtomicUsize,
+    /// tids of rescue helper threads (harness threads, not pool workers)
+    helpers: Mutex<Vec<i64>>,
+}
+
+#[cfg(not(miri))]
+fn gettid() -> i64 {
+    unsafe { libc::syscall(libc::SYS_gettid) as i64 }
+}
+
+#[cfg(miri)]
+fn gettid() -> i64 {
+    0
+}
+
+/// Threads that existed before the first pool was created (main, and e.g.
+/// the sanitizer runtime's background thread): never pool workers.
+static BASE_TASKS: OnceLock<Vec<i64>> = OnceLock::new();
+
+#[cfg(not(miri))]
+fn list_tasks() -> Vec<i64> {
+    std::fs::read_dir("/proc/self/task")
+        .map(|d| d.filter_map(|e| e.ok()?.file_name().to_str()?.parse::<i64>().ok()).collect())
+        .unwrap_or_default()
+}
+
+#[cfg(miri)]
+fn list_tasks() -> Vec<i64> {
+    Vec::new()
+}
+
+#[cfg(not(miri))]
+fn monitor(mon: Arc<Mon>, pool: AsyncifyPool, ctx: Arc<Ctx>) {
+    let me = gettid();
+    let main_tid = std::process::id() as i64;
+    let state_of = |tid: i64| -> Option<char> {
+        let s = std::fs::read_to_string(format!("/proc/self/task/{tid}/stat")).ok()?;
+        s[s.rfind(')')? + 1..].trim_start().chars().next()
+    };
+    let debug = std::env::var_os("C17M_DEBUG").is_some();
+    let mut prev: Vec<(i64, u64)> = Vec::new();
+    let mut strikes = 0;
+    let mut counted: HashSet<(i64, u64)> = HashSet::new();
+    let mut helpers: Vec<thread::JoinHandle<()>> = Vec::new();
+    loop {
+        {
+            let g = mon.stop.lock().unwrap();
+            let (g, _) = mon.cv.wait_timeout_while(g, Duration::from_millis(6), |s| !*s).unwrap();
+            if *g {
+                drop(g);
+                // every caller has returned, so every stranded hand-off was
+                // taken and the helpers' own dispatches complete as well
+                for h in helpers {
+                    let _ = h.join();
+                }
+                return;
+            }
+        }
+        let live: Vec<(i64, u64)> = mon
+            .callers
+            .iter()
+            .filter(|c| c.alive.load(Ordering::SeqCst))
+            .map(|c| (c.tid.load(Ordering::SeqCst), c.seq.load(Ordering::SeqCst)))
+            .collect();
+        let blocked = !live.is_empty() && live.iter().all(|(_, s)| s % 2 == 1) && live == prev;
+        prev = live.clone();
+        if !blocked {
+            strikes = 0;
+            continue;
+        }
+        // Every live caller sits in the same dispatch call as one sampling period ago. Are
+        // they really asleep (parked in the rendezvous send), and is there any
+        // pool worker at all?
+        let base = BASE_TASKS.get().map(|v| v.as_slice()).unwrap_or(&[]);
+        let helper_tids = mon.helpers.lock().unwrap().clone();
+        let workers = list_tasks()
+            .into_iter()
+            .filter(|t| *t != me && *t != main_tid && !base.contains(t) && !helper_tids.contains(t) && !live.iter().any(|(c, _)| c == t))
+            .count();
+        let asleep = live.iter().all(|(t, _)| state_of(*t) == Some('S'));
+        if debug {
+            eprintln!(
+                "[c17m monitor] live={live:?} workers={workers} asleep={asleep} strikes={strikes} running={} gate_open={} helpers={helper_tids:?}",
+                ctx.running.load(Ordering::SeqCst),
+                *ctx.gate.lock().unwrap()
+            );
+        }
+        if !asleep {
+            strikes = 0;
+            continue;
+        }
+        strikes += 1;
+        if strikes < 3 {
+            continue;
+        }
+        let gate_closed = !*ctx.gate.lock().unwrap();
+        if gate_closed {
+            // The callers wait for a worker, the workers wait for the
+            // harness' gate, the gate waits for the callers: the harness' own
+            // making on top of a hand-off that found no idle worker. Open the
+            // gate (recorded, not a verdict).
+            mon.forced_gate.fetch_add(1, Ordering::SeqCst);
+            ctx.set_gate(true);
+            strikes = 0;
+        } else if workers == 0 && ctx.running.load(Ordering::SeqCst) == 0 {
+            // Nothing can change this state any more: the only threads are
+            // sleeping callers (and main waiting for them). Record and rescue:
+            // one more dispatch spawns a worker, which then also takes the
+            // stranded hand-off.
+            // The rescue runs on a helper thread: it can strand in exactly
+            // the same way (then the next round sends another helper; one
+            // worker that stays alive long enough drains them all).
+            if live.iter().any(|p| !counted.contains(p)) {
+                counted.extend(live.iter().copied());
+                mon.rescued.fetch_add(1, Ordering::SeqCst);
+            }
+            let (pool, mon2) = (pool.clone(), mon.clone());
+            helpers.push(thread::spawn(move || {
+                let me = gettid();
+                mon2.helpers.lock().unwrap().push(me);
+                let r = pool.dispatch(|| {});
+                if debug {
+                    eprintln!("[c17m monitor] rescue dispatch accepted={}", r.is_ok());
+                }
+                mon2.helpers.lock().unwrap().retain(|t| *t != me);
+            }));
+            strikes = 0;
+        }
+        // else: jobs are running; the hand-off completes when one finishes
+    }
+}
+
 /// What one caller thread found.
 #[derive(Default)]
 struct CallerLog {
@@ -313,7 +478,14 @@ enum Refused {
 }
 
 /// One dispatch attempt. `Ok(())` accepted; `Err(back)` refused.
-fn dispatch_once(pool: &AsyncifyPool, job: Job, closures: bool, id: usize, nonce: u64, ctx: &Arc<Ctx>, log: &mut CallerLog) -> Result<(), Refused> {
+fn dispatch_once(pool: &AsyncifyPool, st: &CallerState, job: Job, closures: bool, id: usize, nonce: u64, ctx: &Arc<Ctx>, log: &mut CallerLog) -> Result<(), Refused> {
+    st.enter();
+    let r = dispatch_inner(pool, job, closures, id, nonce, ctx, log);
+    st.leave();
+    r
+}
+
+fn dispatch_inner(pool: &AsyncifyPool, job: Job, closures: bool, id: usize, nonce: u64, ctx: &Arc<Ctx>, log: &mut CallerLog) -> Result<(), Refused> {
     if closures {
         // a concrete closure type (what `spawn_blocking` / the drivers pass)
         pool.dispatch(move || job.execute()).map_err(|DispatchError(f)| Refused::Closure(Box::new(f)))
@@ -333,11 +505,14 @@ fn dispatch_once(pool: &AsyncifyPool, job: Job, closures: bool, id: usize, nonce
     }
 }
 
-fn redispatch(pool: &AsyncifyPool, r: Refused) -> Result<(), Refused> {
-    match r {
+fn redispatch(pool: &AsyncifyPool, st: &CallerState, r: Refused) -> Result<(), Refused> {
+    st.enter();
+    let r = match r {
         Refused::Struct(j) => pool.dispatch(j).map_err(|e| Refused::Struct(e.0)),
         Refused::Closure(f) => pool.dispatch(f).map_err(|e| Refused::Closure(e.0)),
-    }
+    };
+    st.leave();
+    r
 }
 
 fn pick_body(rng: &mut Rng, mix: u8) -> Body {
@@ -353,8 +528,10 @@ fn pick_body(rng: &mut Rng, mix: u8) -> Body {
     }
 }
 
-fn caller(pool: AsyncifyPool, ctx: Arc<Ctx>, sc: &Scenario, phase: &Phase, mut rng: Rng, deadline: Instant) -> CallerLog {
+fn caller(pool: AsyncifyPool, ctx: Arc<Ctx>, st: Arc<CallerState>, sc: &Scenario, phase: &Phase, mut rng: Rng, deadline: Instant) -> CallerLog {
     let mut log = CallerLog::default();
+    st.tid.store(gettid(), Ordering::SeqCst);
+    st.alive.store(true, Ordering::SeqCst);
     let (n, mix, retry, gated) = match phase {
         Phase::Gated => (sc.limit + 2, 0, 0, true),
         Phase::Churn { n, mix, retry } => (*n, *mix, *retry, false),
@@ -364,7 +541,7 @@ fn caller(pool: AsyncifyPool, ctx: Arc<Ctx>, sc: &Scenario, phase: &Phase, mut r
         let nonce = rng.next_u64();
         let Some(job) = Job::new(&ctx, body, nonce) else { break };
         let id = job.id;
-        let mut r = dispatch_once(&pool, job, sc.closures, id, nonce, &ctx, &mut log);
+        let mut r = dispatch_once(&pool, &st, job, sc.closures, id, nonce, &ctx, &mut log);
         loop {
             match r {
                 Ok(()) => {
@@ -380,7 +557,7 @@ fn caller(pool: AsyncifyPool, ctx: Arc<Ctx>, sc: &Scenario, phase: &Phase, mut r
                     if again {
                         log.retries += 1;
                         thread::yield_now();
-                        r = redispatch(&pool, back);
+                        r = redispatch(&pool, &st, back);
                     } else {
                         drop(back);
                         if ctx.dropped_unrun[id].load(Ordering::SeqCst) != 1 {
@@ -402,17 +579,17 @@ fn caller(pool: AsyncifyPool, ctx: Arc<Ctx>, sc: &Scenario, phase: &Phase, mut r
             thread::yield_now();
         }
     }
+    st.alive.store(false, Ordering::SeqCst);
     log
 }
 
+/// Number of threads that are neither pre-existing nor main: smallest of
+/// three samples (exiting threads linger in /proc for a moment).
 #[cfg(not(miri))]
 fn census() -> Option<usize> {
-    // smallest of three samples: exiting threads linger in /proc for a moment
-    let once = || std::fs::read_dir("/proc/self/task").ok().map(|d| d.count());
-    let a = once()?;
-    let b = once()?;
-    let c = once()?;
-    Some(a.min(b).min(c))
+    let base = BASE_TASKS.get()?;
+    let once = || list_tasks().into_iter().filter(|t| !base.contains(t)).count();
+    Some(once().min(once()).min(once()))
 }
 
 #[cfg(miri)]
@@ -430,6 +607,7 @@ struct Outcome {
     retire_seen: bool,
     max_running: usize,
     workers_seen: usize,
+    forced_gate: usize,
 }
 
 fn run_scenario(sc: &Scenario, watchdog: Duration) -> Outcome {
@@ -445,6 +623,15 @@ fn run_scenario(sc: &Scenario, watchdog: Duration) -> Outcome {
     let ctx = Ctx::new(cap);
     let timeout = sc.timeout_us.map_or(Duration::from_secs(3600), Duration::from_micros);
     let pool = AsyncifyPool::new(sc.limit, timeout);
+    let mon = Arc::new(Mon {
+        callers: (0..sc.sharers).map(|_| Arc::new(CallerState::default())).collect(),
+        ..Mon::default()
+    });
+    #[cfg(not(miri))]
+    let mon_thread = {
+        let (mon, pool, ctx) = (mon.clone(), pool.clone(), ctx.clone());
+        thread::spawn(move || monitor(mon, pool, ctx))
+    };
     let mut findings: Vec<(String, String)> = Vec::new();
     let mut inconclusive = None;
     let who = if sc.sharers == 1 { "single-caller" } else { "shared-pool" };
@@ -463,9 +650,9 @@ fn run_scenario(sc: &Scenario, watchdog: Duration) -> Outcome {
             if let Some(us) = sc.timeout_us {
                 thread::sleep(Duration::from_micros(us * step.idle_q as u64 / 4 + if step.idle_q >= 8 { 500 } else { 0 }));
                 if step.idle_q >= 8 {
-                    // coverage evidence only (native): nothing but the main
-                    // thread is left, so every worker has retired
-                    retire_seen |= census() == Some(1);
+                    // coverage evidence only (native): nothing but the
+                    // monitor thread is left, so every worker has retired
+                    retire_seen |= census().is_some_and(|n| n <= 1);
                 }
             }
             pattern.push(match step.idle_q {
@@ -482,12 +669,13 @@ fn run_scenario(sc: &Scenario, watchdog: Duration) -> Outcome {
         let deadline = Instant::now() + watchdog;
         // ---- callers
         let logs: Vec<CallerLog> = if sc.sharers == 1 {
-            vec![caller(pool.clone(), ctx.clone(), sc, &step.phase, base_rng.fork(si as u64 * 16), deadline)]
+            vec![caller(pool.clone(), ctx.clone(), mon.callers[0].clone(), sc, &step.phase, base_rng.fork(si as u64 * 16), deadline)]
         } else {
             let hs: Vec<_> = (0..sc.sharers)
                 .map(|c| {
                     let (pool, ctx, sc2, phase, rng) = (pool.clone(), ctx.clone(), sc.clone(), step.phase.clone(), base_rng.fork(si as u64 * 16 + c as u64));
-                    thread::spawn(move || caller(pool, ctx, &sc2, &phase, rng, deadline))
+                    let st = mon.callers[c].clone();
+                    thread::spawn(move || caller(pool, ctx, st, &sc2, &phase, rng, deadline))
                 })
                 .collect();
             hs.into_iter().map(|h| h.join().expect("caller thread")).collect()
@@ -554,6 +742,24 @@ fn run_scenario(sc: &Scenario, watchdog: Duration) -> Outcome {
         }
     }
     ctx.set_gate(true);
+    #[cfg(not(miri))]
+    {
+        *mon.stop.lock().unwrap() = true;
+        mon.cv.notify_all();
+        mon_thread.join().expect("monitor thread");
+    }
+    let rescued = mon.rescued.load(Ordering::SeqCst);
+    if rescued > 0 {
+        findings.push((
+            "C17/pool/dispatch-blocks-forever/no-worker-alive".into(),
+            format!(
+                "{rescued} time(s) every caller was parked inside AsyncifyPool::dispatch (the blocking hand-off `sender.send(f)` after \
+                 spawning a worker) while the process had no pool worker thread at all and no job was running: the worker spawned for \
+                 the job had already given up (recv_timeout {:?}) — dispatch would never return; the harness unblocked it with one extra dispatch",
+                timeout
+            ),
+        ));
+    }
     // ---- accounting
     let max_running = ctx.max_running.load(Ordering::SeqCst);
     let panicked = ctx.panicked.load(Ordering::SeqCst);
@@ -624,6 +830,7 @@ fn run_scenario(sc: &Scenario, watchdog: Duration) -> Outcome {
         retire_seen,
         max_running,
         workers_seen,
+        forced_gate: mon.forced_gate.load(Ordering::SeqCst),
     }
 }
 
@@ -633,6 +840,7 @@ fn evaluate(sc: &Scenario, rep: &mut Report, watchdog: Duration) -> bool {
         Ok(o) => {
             rep.count("jobs_accepted", o.jobs as i64);
             rep.count("refusals", o.refusals as i64);
+            rep.count("gate_opened_early_by_monitor", o.forced_gate as i64);
             rep.max("max_running_minus_limit", o.max_running as i64 - sc.limit as i64);
             if sc.timeout_us.is_none() {
                 rep.max("workers_seen_minus_limit_noretire", o.workers_seen as i64 - sc.limit as i64);
@@ -671,6 +879,30 @@ pub fn main(args: &Args) {
     let leg = args.str("leg", "native");
     let mut rep = Report::from_args("C17", &leg, args);
     let watchdog = Duration::from_secs(args.u64("watchdog-s", 60));
+    // Baseline of permanent non-worker threads. Sanitizer runtimes start their
+    // background thread lazily at the first thread creation: force it, then
+    // wait until the thread list is stable (the probe thread has left /proc, so
+    // no dead tid that a worker could reuse later enters the baseline).
+    let mut base = list_tasks();
+    if !cfg!(miri) {
+        thread::spawn(|| {}).join().expect("probe thread");
+        let mut stable = 0;
+        for _ in 0..500 {
+            thread::sleep(Duration::from_millis(1));
+            let mut now = list_tasks();
+            now.sort_unstable();
+            if now == base {
+                stable += 1;
+                if stable >= 5 {
+                    break;
+                }
+            } else {
+                stable = 0;
+                base = now;
+            }
+        }
+    }
+    let _ = BASE_TASKS.set(base);
     if let Some(path) = args.get("replay") {
         let text = std::fs::read_to_string(path).expect("replay file");
         let v: vcommon::Value = vcommon::serde_json::from_str(&text).expect("replay json");
